@@ -312,6 +312,9 @@ def value(S, spec, n1, n2, d, ard, batch, mode, wrap):
             osc = as_sym_arr(SH.get(k.outputscale))
         if mode == "diag":
             out = S.must_not_raise("%s(x, x, diag=True)" % spec, lambda: k(x1, x2, diag=True))
+        elif mode == "ldb":
+            out = S.must_not_raise("%s(x1, x2, last_dim_is_batch=True)" % spec, lambda: dense(k(x1, x2, last_dim_is_batch=True)))
+            out_d = S.must_not_raise("%s(x1, x1, last_dim_is_batch=True, diag=True)" % spec, lambda: k(x1, x1, last_dim_is_batch=True, diag=True))
         else:
             out = S.must_not_raise("%s(x1, x2)" % spec, lambda: dense(k(x1, x2)))
     for b in np.ndindex(*bs):
@@ -320,10 +323,27 @@ def value(S, spec, n1, n2, d, ard, batch, mode, wrap):
         if wrap == "scale":
             R = R * (osc[b] if bs else osc.reshape(-1)[0])
         tag = ("b%s." % list(b)) if bs else ""
+        if mode == "ldb":
+            # every input dimension is a batch element of its own: slice j = the kernel on the one-dimensional inputs x[:, j]
+            S.check_concrete(tuple(out.shape) == bs + (d, n1, n2), "last_dim_is_batch output shape", str(tuple(out.shape)))
+            for j in range(d):
+                Rj = REFS[spec](X1[b][:, j:j + 1], X2[b][:, j:j + 1], pb, base)
+                if wrap == "scale":
+                    Rj = Rj * (osc[b] if bs else osc.reshape(-1)[0])
+                S.prove_eq(out[b][j] if bs else out[j], Rj, tag + "%s last_dim_is_batch slice %d = kernel on dimension %d alone" % (spec, j, j))
+                global _DIAG_ZERO
+                _DIAG_ZERO = True
+                try:
+                    Rd = np.array([REFS[spec](X1[b][i:i + 1, j:j + 1], X1[b][i:i + 1, j:j + 1], pb, base)[0, 0] for i in range(n1)], dtype=object)
+                finally:
+                    _DIAG_ZERO = False
+                if wrap == "scale":
+                    Rd = Rd * (osc[b] if bs else osc.reshape(-1)[0])
+                S.prove_eq(out_d[b][j] if bs else out_d[j], Rd, tag + "%s last_dim_is_batch diag, dimension %d" % (spec, j))
+            continue
         if mode == "diag":
             # diag=True with x2 is x1 takes the distance exactly 0 (the 1e-15 guard of the full-matrix path is not applied):
             # reference = documented function at r = 0
-            global _DIAG_ZERO
             _DIAG_ZERO = True
             try:
                 Rd = np.array([REFS[spec](X1[b][i:i + 1], X1[b][i:i + 1], pb, base)[0, 0] for i in range(X1[b].shape[0])], dtype=object)
@@ -619,6 +639,8 @@ def scenarios(tier, seed):
         add("value", spec="rq", n1=2, n2=2, d=2, ard=True, batch=0, mode="diag", wrap="none")
         add("value", spec="rbf", n1=2, n2=3, d=2, ard=True, batch=2, mode="cross", wrap="scale")
         add("value", spec="arc_rbf_delta", n1=2, n2=3, d=2, ard=True, batch=0, mode="cross", wrap="none")
+        for i, s in enumerate(("rbf", "matern15", "rq", "periodic", "linear", "poly2", "pp1", "pp2", "constant", "cosine")):
+            add("value", spec=s, n1=2, n2=3, d=2, ard=False, batch=2 if i % 3 == 1 else 0, mode="ldb", wrap="scale" if i % 4 == 2 else "none")
         add("composition", n1=2, n2=3, d=2)
         for sp, dd in (("gskl", 2), ("hamming", 3), ("spectral_delta", 2), ("cylindrical", 2), ("additive_structure", 3),
                        ("product_structure", 2), ("newton_girard", 3), ("sum_interaction_terms", 3)):
@@ -647,6 +669,10 @@ def scenarios(tier, seed):
             if s in ("rbf", "matern05", "matern15", "matern25"):
                 add("value", spec=s, n1=2, n2=3, d=1, ard=False, batch=0, mode="autograd", wrap="none")
                 add("value", spec=s, n1=2, n2=3, d=1, ard=False, batch=0, mode="cross", wrap="scale")
+        for s in specs:
+            if s not in ("spectral_mixture", "arc_rbf"):
+                add("value", spec=s, n1=2, n2=3, d=2, ard=False, batch=0, mode="ldb", wrap="none")
+                add("value", spec=s, n1=3, n2=2, d=3, ard=False, batch=2, mode="ldb", wrap="scale")
         for (n1, n2) in [(2, 3), (3, 2), (1, 3)]:
             add("value", spec="arc_rbf_delta", n1=n1, n2=n2, d=2, ard=True, batch=0, mode="cross", wrap="none")
         add("value", spec="arc_rbf_delta", n1=3, n2=3, d=3, ard=False, batch=0, mode="same", wrap="none")
